@@ -133,6 +133,16 @@ RunCall(S, t, c) == RunThread(StartCall(S, t, c), t)
 \* ------------------------------------------------------------------ environment steps (obstacles)
 PutDir(S, p)  == [S EXCEPT !.dirs = @ \cup DirPrefixes(p)]
 PutFile(S, p, c) == [S EXCEPT !.dirs = @ \cup DirPrefixes(Front(p)), !.files = WithFile(S, p, c)]
+\* an existing file is moved aside and a directory takes its place / the reverse (environment steps
+\* that obstruct a file which already holds exported declarations, without destroying them)
+Aside(p) == U.cwd \o << <<"a", "s", "i", "d", "e">>, Last(p) >>
+SwapOut(S, p) == IF ~HasFile(S, p) THEN S ELSE
+  [S EXCEPT !.files = [x \in (DOMAIN S.files \ {p}) \cup {Aside(p)} |-> IF x = Aside(p) THEN S.files[p] ELSE S.files[x]],
+            !.dirs = @ \cup DirPrefixes(p) \cup DirPrefixes(Front(Aside(p)))]
+SwapIn(S, p) == IF ~HasFile(S, Aside(p)) THEN S ELSE
+  [S EXCEPT !.files = [x \in (DOMAIN S.files \ {Aside(p)}) \cup {p} |-> IF x = p THEN S.files[Aside(p)] ELSE S.files[x]],
+            !.dirs = @ \ {p}]
+HiddenByEnv(S, p) == HasFile(S, Aside(p))
 RemovePath(S, p) == [S EXCEPT !.dirs = { d \in @ : ~(Len(d) >= Len(p) /\ SubSeq(d, 1, Len(p)) = p) },
                               !.files = [x \in { x \in DOMAIN S.files : ~(Len(x) >= Len(p) /\ SubSeq(x, 1, Len(p)) = p) } |-> S.files[x]]]
 
